@@ -271,18 +271,23 @@ def main(tier, seed):
 
     # ---- histories
     work = []          # (prog, level, F, kind, history)
-    n4 = 250
+    n4, n3 = 200, 100
     nlong = 4 if tier == 'quick' else 12
     for (p, lvl), F in zip(pl, frees):
         l1, l2, l3 = choose_lines(F)
-        a9 = [1, 2, 3, 4, 5, [6, l1], [7, l1], [6, l2], [7, l2]]
+        a7 = [1, 2, 3, 4, 5, [6, l1], [7, l1]]
+        a9 = a7 + [[6, l2], [7, l2]]
         a11 = a9 + [[6, l3], [7, l3]]
-        alpha = a9 if tier == 'quick' else a11
-        for h in itertools.product(alpha, repeat=3):
+        # quick is a subset of thorough: a7^3 < a9^3, a9^2 < a11^2, long k<4 < k<12
+        for h in itertools.product(a7 if tier == 'quick' else a9, repeat=3):
             work.append((p, lvl, F, 'hist3', list(h)))
+        for h in itertools.product(a9 if tier == 'quick' else a11, repeat=2):
+            work.append((p, lvl, F, 'hist2', list(h)))
         if tier != 'quick':
+            for _ in range(n3):
+                work.append((p, lvl, F, 'hist3s', [ctx.rng.choice(a11) for _ in range(3)]))
             for _ in range(n4):
-                work.append((p, lvl, F, 'hist4', [ctx.rng.choice(a11) for _ in range(4)]))
+                work.append((p, lvl, F, 'hist4s', [ctx.rng.choice(a11) for _ in range(4)]))
         for k in range(nlong):
             work.append((p, lvl, F, 'long', long_history(p[0], lvl, k, [l1, l2, l3, 1, 0])))
         work.append((p, lvl, F, 'stepall', [1] * (len(F['trace']) + 2)))
@@ -291,8 +296,11 @@ def main(tier, seed):
         f'{len(progs)} programs (loops, IF, SELECT, GOSUB, SUB/FUNCTION incl. recursion, several statements per '
         f'line, empty blocks, END in the middle, traps, ON ERROR) x debug levels -O0/-O2: every command history of '
         f'length 3 over {{step,next,stepi,nexti,continue,break L,delbr L}} with L in '
-        + ('2 lines' if tier == 'quick' else '3 lines (one without a statement, one beyond the end)')
-        + (f', {n4} seeded histories of length 4 per program/level' if tier != 'quick' else '')
+        + ('1 line (the most visited statement) and of length 2 with L in 2 lines'
+           if tier == 'quick' else
+           '2 lines and of length 2 with L in 3 lines (one without a statement, one beyond the end)')
+        + (f', {n3}+{n4} seeded histories of length 3 and 4 over the 11-symbol alphabet per program/level'
+           if tier != 'quick' else '')
         + f', {nlong} seeded histories of length 5..30, and the all-step history; each followed by continue until '
         f'the machine halts; snapshots (status pc halted reason line #events #ticks resumed last_breakpoint depth '
         f'breakpoints messages) after every command and the final machine state compared with the model; '
